@@ -360,6 +360,7 @@ func suiteC17(cfg Config, res *Result) {
 		}
 	}
 	c17SafeIdentity(res)
+	c17Removetags(res)
 	res.Cases = len(cases)
 	for i := 0; i < 3 && i < len(cases); i++ {
 		c := cases[len(cases)-1-i*8]
@@ -410,6 +411,40 @@ func c17SafeIdentity(res *Result) {
 		res.Cases++
 		if a.String() != b.String() {
 			res.add(Finding{Kind: "oracle", Proj: "filter", Sig: "c17-safe-changes-the-value", Case: with, Impl: a.String(), Model: "as without safe: " + b.String()})
+		}
+	}
+}
+
+// c17Removetags: only the named tags go — not the tags whose names merely begin with a named one,
+// not tags with attributes, not text
+func c17Removetags(res *Result) {
+	inputs := []string{"line<br>break", "<body>x</body>", "<blockquote>q</blockquote>", `<img src="x"><i>a</i>`, "<i>a</i><b>b</b>", "<script>s()</script><s>x</s>",
+		"<pre>p</pre><p>q</p>", `<abbr>a</abbr><a>b</a><a href="u">c</a>`, "< b>x</ b>", "<b >x</b >", "<B>x</B>", "a<b/>c<br/>d", "<bb><b></b></bb>", "<i", "i>", "<<b>>", "1 < 2 <b>x</b> 3 > 2"}
+	for _, tags := range []string{"b", "i", "b,i", "s", "p", "a", "a,b,i,p,s"} {
+		var alts []string
+		for _, t := range strings.Split(tags, ",") {
+			alts = append(alts, regexp.QuoteMeta(t))
+		}
+		re := regexp.MustCompile("</?(" + strings.Join(alts, "|") + ")/?>")
+		strip := func(s string) string {
+			for {
+				t := re.ReplaceAllString(s, "")
+				if t == s {
+					return strings.TrimSpace(s)
+				}
+				s = t
+			}
+		}
+		for _, in := range inputs {
+			res.Cases++
+			out, err := pongo2.ApplyFilter("removetags", pongo2.AsValue(in), pongo2.AsValue(tags))
+			if err != nil {
+				res.add(Finding{Kind: "oracle", Proj: "filter", Sig: "c17-removetags-fails", Case: hx(in) + " removetags:" + tags, Impl: err.Error(), Model: "a value"})
+				continue
+			}
+			if strip(in) != strip(out.String()) {
+				res.add(Finding{Kind: "oracle", Proj: "filter", Sig: "c17-removetags", Case: fmt.Sprintf("%q|removetags:%q", in, tags), Impl: fmt.Sprintf("%q", out.String()), Model: fmt.Sprintf("only the named tags removed: %q", strip(in))})
+			}
 		}
 	}
 }
